@@ -52,6 +52,7 @@ import (
 	"os"
 	"strings"
 	"runtime"
+	"runtime/debug"
 	"slices"
 	_ "unsafe"
 
@@ -92,6 +93,10 @@ type interpreter struct {
 	module             string                 // module path prefix of the code under test
 	initDone           map[*ssa.Package]bool  // lazily initialised packages
 	top                *frame                 // innermost active frame (for stack dumps)
+	panicStack         string                 // interpreter stack at the most recent panic
+	panicGoStack       string
+	unwinding          bool
+	fmtDepth           int
 }
 
 type deferred struct {
@@ -411,6 +416,8 @@ func call(i *interpreter, caller *frame, callpos token.Pos, fn value, args []val
 		return callSSA(i, caller, callpos, fn.Fn, args, fn.Env)
 	case *ssa.Builtin:
 		return callBuiltin(caller, callpos, fn, args)
+	case *nativeFunc:
+		return fn.f(caller, args)
 	}
 	panic(fmt.Sprintf("cannot call %T", fn))
 }
@@ -535,6 +542,14 @@ func runFrame(fr *frame) {
 			return // let interpreter crash
 		}
 		p := recover()
+		if !fr.i.unwinding {
+			fr.i.unwinding = true
+			// innermost frame of a fresh panic: remember where it happened
+			fr.i.panicStack = fr.i.stackString()
+			if _, ok := p.(runtime.Error); ok {
+				fr.i.panicGoStack = string(debug.Stack())
+			}
+		}
 		if engineAbort(p) {
 			panic(p)
 		}
@@ -616,6 +631,7 @@ func doRecover(caller *frame) value {
 		caller != nil && !caller.panicking &&
 		caller.caller != nil && caller.caller.panicking {
 		caller.caller.panicking = false
+		caller.i.unwinding = false
 		p := caller.caller.panic
 		caller.caller.panic = nil
 
